@@ -135,6 +135,9 @@ def py_repr(t: Any) -> str:
             return f"ForwardRef({t.fields['__forward_arg__'].v!r})"
         if t.kind == "newtype":
             return f"{t.fields['__module__'].v}.{t.fields['__name__'].v}"
+        if t.kind == "pep585":
+            # Objects/genericaliasobject.c: the origin like typing._type_repr, the arguments likewise, `...` for Ellipsis
+            return f"{type_repr(t.fields['origin'])}[{', '.join(type_repr(x) for x in t.fields['__args__'].v)}]"
         if t.kind == "uniontype":
             # Objects/unionobject.c: the members joined by " | ", None for NoneType, the rest like typing._type_repr
             return " | ".join("None" if x == NONE_T else type_repr(x) for x in t.fields["__args__"].v)
